@@ -17,9 +17,9 @@ import (
 // C02: a table's identifier depends only on its logical content.
 //
 //	case = (columns pknames (variant ...) (mutant ...) cli)
-//	  variant = (rows runSize arrival (workers delimiter kind deps)) -- the SAME logical table: the rows
+//	  variant = (rows runSize arrival (workers delimiter kind deps style)) -- the SAME logical table: the rows
 //	            permuted, another run size / worker count / delimiter / producer (kind 0 or 2) / store /
-//	            forced worker schedule (deps, see C01)
+//	            forced worker schedule (deps, see C01) / CSV text style (see C01)
 //	  mutant  = (columns pknames rows) -- differs in one cell / column name / column order / key
 //	  cli     = 1: additionally drive wrgl commit from a branch file (see below)
 //	observation = (status (block ...) (same ...) (differs ...) (cli ...))
@@ -32,7 +32,7 @@ import (
 func init() { props["C02"] = &Prop{Gen: genC02, Run: runC02} }
 
 func c02Variant(k c01Case) *xt.T {
-	return xt.N(c19Rows(k.Rows), xt.L(k.RunSize), xt.Ints(k.Arrival), xt.N(xt.LI(k.Workers), xt.LI(int(k.Delim)), xt.LI(k.Kind), c01Deps(k.Deps)))
+	return xt.N(c19Rows(k.Rows), xt.L(k.RunSize), xt.Ints(k.Arrival), xt.N(xt.LI(k.Workers), xt.LI(int(k.Delim)), xt.LI(k.Kind), c01Deps(k.Deps), xt.LI(k.Style)))
 }
 
 func c02Mutant(k c01Case) *xt.T {
@@ -80,6 +80,9 @@ func runC02(ctx *Ctx, c *xt.T) (*xt.T, Verdict) {
 			Kind: int(vt.Kids[3].Kids[2].N)}
 		if len(vt.Kids[3].Kids) > 3 {
 			k.Deps = c01DecodeDeps(vt.Kids[3].Kids[3])
+		}
+		if len(vt.Kids[3].Kids) > 4 {
+			k.Style = int(vt.Kids[3].Kids[4].N)
 		}
 		if i < 2 {
 			k.Store = shared // variants 0 and 1 go into one store, the others into their own
@@ -156,7 +159,7 @@ func c02CLI(ctx *Ctx, v0, v1, m0 c01Case, bad func(class, format string, a ...in
 	}()
 	fp := filepath.Join(root, "data.csv")
 	write := func(k c01Case) {
-		text := c01CSV(append([][]string{k.Columns}, k.Rows...), ',')
+		text := c01Text(append([][]string{k.Columns}, k.Rows...), ',', k.Style)
 		if err := os.WriteFile(fp, text, 0600); err != nil {
 			panic(err)
 		}
@@ -225,9 +228,17 @@ func genC02(ctx *Ctx) []Case {
 			return
 		}
 		for _, d := range c01Delims {
-			if _, ok := c01Stable(recs, d); !ok {
-				ctx.Count("gen_not_csv_stable_skipped")
-				return
+			for _, st := range []int{0, c01StyleRaw, c01StyleRaw | c01StyleCRLF, c01StyleRaw | c01StyleNoFinal} {
+				back, ok := c01StableStyle(recs, d, st)
+				for i := range back {
+					if ok && c19KeyString(back[i]) != c19KeyString(recs[i]) {
+						ok = false
+					}
+				}
+				if !ok {
+					ctx.Count("gen_not_csv_stable_skipped")
+					return
+				}
 			}
 		}
 		base.Columns, base.Rows = recs[0], recs[1:]
@@ -264,6 +275,9 @@ func genC02(ctx *Ctx) []Case {
 			if i == 4 {
 				k.Kind = 2
 			}
+			// the file text is written in different styles: heavy quoting, hand-formatted (blanks
+			// reach the parser unquoted), CRLF line ends, no final line end
+			k.Style = []int{0, c01StyleRaw, c01StyleRaw | c01StyleCRLF, c01StyleCRLF, 0, c01StyleRaw | c01StyleNoFinal}[i]
 			// tables of 3+ blocks: two variants are ingested under a forced worker schedule
 			if nb := (len(base.Rows) + 254) / 255; nb >= 3 && (i == 3 || i == 5) {
 				pattern := 2
